@@ -81,7 +81,7 @@ func init() {
 	reg(&propCfg{ID: "C16", Test: "TestC16", Quick: tierCfg{5000, 4}, Thorough: tierCfg{250000, 16}, Fatal: true})
 	reg(&propCfg{ID: "C09", Test: "TestC09", Quick: tierCfg{10000, 4}, Thorough: tierCfg{600000, 16}})
 	reg(&propCfg{ID: "C04", Test: "TestC04", Quick: tierCfg{10000, 4}, Thorough: tierCfg{600000, 16}})
-	reg(&propCfg{ID: "C06", Test: "TestC06", Quick: tierCfg{4000, 4}, Thorough: tierCfg{100000, 16}})
+	reg(&propCfg{ID: "C06", Test: "TestC06", Quick: tierCfg{3000, 4}, Thorough: tierCfg{100000, 16}})
 	reg(&propCfg{ID: "C03", Test: "TestC03", Quick: tierCfg{4000, 4}, Thorough: tierCfg{150000, 16}})
 	reg(&propCfg{ID: "C17", Test: "TestC17", Quick: tierCfg{800, 8}, Thorough: tierCfg{20000, 16}})
 	reg(&propCfg{ID: "C15", Test: "TestC15", Quick: tierCfg{5000, 4}, Thorough: tierCfg{500000, 16}})
